@@ -68,10 +68,12 @@ func (b *googleBreaker) doReq(req func() error, fallback func(err error) error, 
 		return err
 	}
 
+	// 不用 recover() 判断是否 panic：panic(nil) 时它返回 nil，调用既不计数也不再上抛。
+	// 未正常结束即记为失败，panic 自行继续向上传播。
+	finished := false
 	defer func() {
-		if e := recover(); e != nil {
+		if !finished {
 			b.markFailure()
-			panic(e)
 		}
 	}()
 
@@ -81,6 +83,7 @@ func (b *googleBreaker) doReq(req func() error, fallback func(err error) error, 
 	} else {
 		b.markFailure()
 	}
+	finished = true
 
 	return err
 }
